@@ -121,6 +121,14 @@ CLAIMED = {
          "arities of emitted programs, bytecode compile/decompile, width re-encoding, and desubroutinize / remove_hints / CFF<->CFF2 on corpus "
          "fonts and a generated font whose subroutines mix hints and path (testing). Known finding F14 (CFF->CFF2->CFF raises).",
          "Rocq proof that generalisation preserves the interpreter's drawing + correspondence of both models + rewrite sweeps"),
+ "C05": ("Theorems over exact rationals: the inferred delta computed by iup_segment is, for every coordinate, the one the OpenType "
+         "specification defines for points without explicit deltas (a relational specification written from the gvar text, "
+         "iup1_meets_spec), never overshoots the reference deltas, and does not depend on the order of the two reference points. "
+         "iup_segment/iup_contour/iup_delta are modelled and tied to the code by exact correspondence on rational inputs with every "
+         "explicit/inferred pattern. The rest of the pipeline (outline decoding, components, gvar application order, phantom-point advances, "
+         "HVAR, avar, clamping, CFF/CFF2 charstrings incl. flex ties) is compared glyph by glyph with HarfBuzz on corpus and generated fonts at "
+         "default, extreme, random and out-of-range locations (testing).",
+         "Rocq proof that inferred deltas meet the specification + exact correspondence + HarfBuzz glyph sweeps"),
 }
 
 def main():
